@@ -253,7 +253,22 @@ func VerifH11() {
 		return
 	}
 	// without certificates: 'N', then the same connection continues in plaintext
-	if cancelInside || repeatInside {
+	if repeatInside {
+		// a second SSLRequest after the refusal: whatever the server makes of it,
+		// only ONE byte is the SSL reply — everything after it is well-formed
+		// backend messages (a second 'N' would be read as a NoticeResponse header)
+		conn := vNewConn(vCat(vSSLRequest, session))
+		if vSymbolic() {
+			conn.inner = vNewConn(nil)
+		}
+		srv.serve(context.Background(), conn) //nolint
+		vAssert("ssl-refused-with-single-N", len(conn.out) >= 1 && conn.out[0] == 'N')
+		vAssert("repeated-sslrequest-after-refusal-output-wellformed", vWireOK(conn.out[1:]))
+		vAssert("closed", conn.closed >= 1)
+		vReach("repeated-sslrequest-after-refusal")
+		return
+	}
+	if cancelInside {
 		return // cancel after the refusal is H12b
 	}
 	var rest []byte
